@@ -29,9 +29,10 @@ import (
 )
 
 // c15.rgroup <cap> <kind,kind,...> <op,op,...>
-//   p<rtp packet>   Group.OnRtpPacket
-//   r<i>.<n> f<i>.<n> d<i>   as in c15.run
-//   s               Group.Tick(120*k)
+//
+//	p<rtp packet>   Group.OnRtpPacket
+//	r<i>.<n> f<i>.<n> d<i>   as in c15.run
+//	s               Group.Tick(120*k)
 func c15RGroup(a []string) string {
 	capacity := intTok(a[0])
 	if capacity < 1 {
@@ -116,6 +117,8 @@ func c15RGroup(a []string) string {
 				if i < len(cs) {
 					err = cs[i].disposeAndSettle()
 				}
+			case 'i':
+				err = c15Inbound(cs, op[1:])
 			case 's':
 				tick += 120
 				if !guarded(func() { g.Tick(tick) }) {
